@@ -24,6 +24,8 @@ SCHEMAS = {
         ('i', pa.int64()), ('s', pa.string()), ('f', pa.float64()),
         ('st', pa.struct([('a', pa.int32()), ('b', pa.string())])),
         ('l', pa.list_(pa.int64())),
+        # floats INSIDE nested values, with NaN and infinities next to nulls: a NaN is a value, a null is a null, at every depth
+        ('lf', pa.list_(pa.float64())), ('sf', pa.struct([('x', pa.float64()), ('n', pa.int32())])),
     ]),
     'single': lambda: pa.schema([('i', pa.int64())]),
     # field ATTRIBUTES beyond name and type: a required (NOT NULL) column and field metadata, as a schema read back with
@@ -56,6 +58,8 @@ def build_rows(spec):
         if spec['schema'] == 'nested':
             row['st'] = r.choice([{'a': k % 1000, 'b': 'b%d' % k}, {'a': None, 'b': None}, None])
             row['l'] = r.choice([[], [k], [k, None, -k], None])
+            row['lf'] = r.choice([[], [k / 3], [0.33, float('nan'), None], [float('inf'), float('-inf'), float('nan')], None, [float('nan')]])
+            row['sf'] = r.choice([{'x': float('nan'), 'n': k % 100}, {'x': 1.5, 'n': None}, {'x': None, 'n': 1}, None, {'x': float('-inf'), 'n': 0}])
         rows.append(row)
     return rows
 
